@@ -994,6 +994,15 @@ def check_zero_tolerance(ctx: Ctx) -> None:
             y_cache.append(yn)
     ok = ok and bool(y_cache) and all(any(cfg.dominates(cfg.node_of(z), yn) for z in zero) for yn in y_cache)
     ctx.ob("16.6-zero-tolerance", con, ok, "with a cache, the tolerance must be set to 0 before the approximation runs (before the yield)", node=(zero or ys or [f])[0], stmt="tolerance = 0 before the body")
+    # ... whatever the tolerance and the step are: the tolerance is relative to the norm of the inputs, so no comparison
+    # of the two can tell that a perturbed point will not be mistaken for the nominal one
+    okc = bool(zero)
+    for z in zero:
+        for k_ in literal_facts(cfg, cfg.node_of(z)):
+            names = {n_.id for n_ in ast.walk(ast.parse(k_, mode="eval")) if isinstance(n_, ast.Name)} | {n_.attr for n_ in ast.walk(ast.parse(k_, mode="eval")) if isinstance(n_, ast.Attribute)}
+            if not (" is None" in k_ or " is not None" in k_) or names & {"tolerance", "step"}:
+                okc = False
+    ctx.ob("16.6-zero-tolerance", con, okc, "the tolerance is zeroed whenever there is a cache: a condition on the size of the tolerance or of the step (the tolerance is relative to the norm of the inputs) leaves perturbed points to be served from the cache -- a null Jacobian", node=(zero or [f])[0], stmt="zeroing depends only on the existence of the cache")
     ok = bool(restore) and all(cfg.escape_path(yn, {cfg.node_of(r_) for r_ in restore}) is None for yn in y_cache) and all(dotted(r_.value) for r_ in restore)
     saved = {dotted(r_.value) for r_ in restore}
     ok = ok and all(any(isinstance(s_, ast.Assign) and dotted(s_.targets[0]) == v_ and (dotted(s_.value) or "").endswith("cache.tolerance") and any(cfg.dominates(cfg.node_of(s_), cfg.node_of(z)) for z in zero) for s_ in stmts_of(f)) for v_ in saved)
@@ -1035,7 +1044,7 @@ def check_zero_tolerance(ctx: Ctx) -> None:
             n_calls += 1
             ok = any(any(sub is c for sub in ast.walk(w)) for w in withs)
             ctx.ob("16.6-zero-tolerance", cname(DA, "DisciplineJacApprox", mname), ok, f"{sorted(routines)[0]} evaluates the discipline at perturbed points: it must be CALLED under the zero-tolerance context (fetching the bound method inside the context and calling it after does nothing)", node=c, stmt=f"{sorted(routines)[0]} called under __set_zero_cache_tol")
-    ctx.floor("16.6-zero-tolerance", 4)
+    ctx.floor("16.6-zero-tolerance", 5)
 
 
 def check_overrides_forward(ctx: Ctx) -> None:
